@@ -25,9 +25,9 @@ DIGEST = rc.comp(1, bytes(32))
 def run(ctx):
     ctx.rule = RULE
     rng = ctx.rng
-    nsch = ctx.n(80, 6000)
+    nsch = ctx.n(60, 6000)
     templates = []
-    for _ in range(ctx.n(3, 12)):
+    for _ in range(ctx.n(2, 12)):
         templates += lvs.template_schemas(rng, True)
     for si in range(nsch + len(templates)):
         if si < len(templates):
@@ -36,19 +36,22 @@ def run(ctx):
         else:
             schema = lvs.gen_schema(rng, with_signers=True, n_rules=rng.randint(3, 7))
         text = lvs.schema_text(schema)
+        FNS_LIB, FNS_REF = lvs.fns_for(schema)
+        if schema.get('default_fns'):
+            ctx.event('schema-checked-with-the-built-in-functions')
         w = {'schema': text}
         tot_alts, max_len_ = lvs.alt_counts(schema)
         if tot_alts > 60 or max_len_ > 9:
             ctx.event('schema-skipped-too-large')
             continue
-        ref = lvs.Ref(schema, lvs.USER_FNS)
+        ref = lvs.Ref(schema, FNS_REF)
         if False:
             ctx.event('schema-skipped-too-large')
             continue
         try:
             model = compile_lvs(text)
-            checker = Checker(model, lvs.USER_FNS)
-            loaded = Checker.load(checker.save(), lvs.USER_FNS)
+            checker = Checker(model, FNS_LIB)
+            loaded = Checker.load(checker.save(), FNS_LIB)
         except (SemanticError, LvsModelError) as e:
             # whether clean schemas are accepted is C13's clause; here a schema without a compiled model cannot be judged
             ctx.event('schema-rejected-not-judged')
@@ -69,7 +72,7 @@ def run(ctx):
                     nd.sign_cons = list(nd.sign_cons)[::-1]
                     nd.v_edges = list(nd.v_edges)[::-1]
                 ctx.event('model-with-reordered-lists')
-            nosym = Checker.load(bytes(m2.encode()), lvs.USER_FNS)
+            nosym = Checker.load(bytes(m2.encode()), FNS_LIB)
             ctx.event('model-without-symbol-table')
         except Exception as e:   # noqa
             ctx.report(f'symbol-less-model-raises:{type(e).__name__}@{raising_site(e)[0]}', f'loading the model without its optional symbol table raised {e!r}', w)
